@@ -116,7 +116,7 @@ def ingest(name, wt, prop, needs=""):
         shutil.rmtree(b, ignore_errors=True)
 
 
-def run_one(name, props):
+def run_one(name, props, seeds=(0,)):
     d = os.path.join(SEEDED, name)
     tmp = scratch_copy()
     try:
@@ -125,11 +125,16 @@ def run_one(name, props):
             return name, {"error": "patch does not apply: " + msg[:200]}
         out = {}
         for p in props:
-            env = dict(os.environ, SMN_SRC=os.path.join(tmp, "src"))
-            cp = subprocess.run([os.path.join(VERIF, "check"), p, "--no-evidence"], cwd=VERIF, env=env,
-                                capture_output=True, text=True, timeout=3000)
-            mech = [l.strip() for l in cp.stdout.splitlines() if l.strip().startswith("mechanism:")]
-            out[p] = {"rc": cp.returncode, "mechanisms": mech[:2]}
+            rcs = []
+            mech = []
+            for sd in seeds:
+                env = dict(os.environ, SMN_SRC=os.path.join(tmp, "src"), VERIF_SEED=str(sd))
+                cp = subprocess.run([os.path.join(VERIF, "check"), p, "--no-evidence"], cwd=VERIF, env=env,
+                                    capture_output=True, text=True, timeout=3000)
+                rcs.append(cp.returncode)
+                mech = mech or [l.strip() for l in cp.stdout.splitlines() if l.strip().startswith("mechanism:")]
+            out[p] = {"rc": 1 if all(r == 1 for r in rcs) else (0 if all(r == 0 for r in rcs) else max(set(rcs) - {1}, default=0)),
+                      "rcs": rcs, "mechanisms": mech[:2]}
         return name, out
     finally:
         shutil.rmtree(tmp, ignore_errors=True)
@@ -148,6 +153,7 @@ def main():
     r.add_argument("--props", default="")
     r.add_argument("--all-props", action="store_true")
     r.add_argument("--jobs", type=int, default=8)
+    r.add_argument("--seeds", default="0")
     a = ap.parse_args()
     if a.cmd == "ingest":
         sys.exit(0 if ingest(a.name, a.worktree, a.prop, a.needs) else 1)
@@ -157,7 +163,7 @@ def main():
     def job(n):
         meta = json.load(open(os.path.join(SEEDED, n, "meta.json")))
         props = ALL if a.all_props else (a.props.split(",") if a.props else [meta["breaks"]])
-        return run_one(n, props), meta
+        return run_one(n, props, tuple(int(x) for x in a.seeds.split(","))), meta
 
     with ThreadPoolExecutor(max_workers=a.jobs) as ex:
         for (n, out), meta in ex.map(job, names):
@@ -167,7 +173,7 @@ def main():
             caught = [p for p, v in out.items() if v["rc"] == 1]
             target = meta["breaks"]
             status = "CAUGHT" if target in caught else ("caught-by-other" if caught else "MISSED")
-            print(f"{n:40s} breaks={target} {status} by={caught}")
+            print(f"{n:40s} breaks={target} {status} by={caught} rcs={out.get(target, {}).get('rcs')}")
             for p in caught[:3]:
                 for m in out[p]["mechanisms"][:1]:
                     print(f"        {p}: {m[:200]}")
